@@ -52,19 +52,27 @@ drv("sfile_write_header_txt", "recfile", "def f(data, fname: str):\n    sfile.wr
     {"data": "rec"}, nd=(1,), dt=REC, func="sfile.write", valuation="text, header=")
 drv("sfile_write_padnull", "recfile", "def f(data, fname: str):\n    sfile.write(fname, data, delim=',', padnull=True, ignorenull=False)\n",
     {"data": "rec"}, nd=(1,), dt=REC, func="sfile.write", valuation="text, padnull=True")
+# a driver hands the array under test to exactly ONE call (earlier calls that only prepare the file get a copy): two
+# text writes of the same non-native table would swap it twice and so hide the as-found defect from the snapshot
 drv("sfile_write_append_bin", "recfile",
-    "def f(data, fname: str):\n    sfile.write(fname, data)\n    sfile.write(fname, data, append=True)\n",
+    "def f(data, fname: str):\n    sfile.write(fname, data.copy())\n    sfile.write(fname, data, append=True)\n",
     {"data": "rec"}, nd=(1,), dt=REC, func="sfile.write", valuation="binary, append=True after a first write")
 drv("sfile_write_append_txt", "recfile",
-    "def f(data, fname: str):\n    sfile.write(fname, data, delim=',')\n    sfile.write(fname, data, delim=',', append=True)\n",
+    "def f(data, fname: str):\n    sfile.write(fname, data.copy(), delim=',')\n    sfile.write(fname, data, delim=',', append=True)\n",
     {"data": "rec"}, nd=(1,), dt=REC, func="sfile.write", valuation="text, append=True after a first write")
 for tag, kw, val in (("bin", "", "binary"), ("txt", ", delim=','", "text")):
     drv("SFile_write_" + tag, "recfile",
-        "def f(data, fname: str):\n    with SFile(fname, 'w'%s) as sf:\n        sf.write(data)\n        sf.write(data)\n" % kw,
-        {"data": "rec"}, nd=(1,), dt=REC, func="SFile.write", valuation=val + ", two writes")
+        "def f(data, fname: str):\n    with SFile(fname, 'w'%s) as sf:\n        sf.write(data.copy())\n        sf.write(data)\n" % kw,
+        {"data": "rec"}, nd=(1,), dt=REC, func="SFile.write", valuation=val + ", second write into an open file")
+    drv("SFile_write_first_" + tag, "recfile",
+        "def f(data, fname: str):\n    with SFile(fname, 'w'%s) as sf:\n        sf.write(data)\n" % kw,
+        {"data": "rec"}, nd=(1,), dt=REC, func="SFile.write", valuation=val + ", first write")
     drv("SFile_write_header_" + tag, "recfile",
-        "def f(data, fname: str):\n    sf = SFile(fname, 'w+'%s)\n    sf.write(data, header={'k': [1, 2]})\n    sf.close()\n" % kw,
-        {"data": "rec"}, nd=(1,), dt=REC, func="SFile.write", valuation=val + ", mode w+, header=")
+        "def f(data, fname: str):\n    sf = SFile(fname, 'w'%s)\n    sf.write(data, header={'k': [1, 2]})\n    sf.close()\n" % kw,
+        {"data": "rec"}, nd=(1,), dt=REC, func="SFile.write", valuation=val + ", mode w, header=")
+    drv("SFile_write_rplus_" + tag, "recfile",
+        "def f(data, fname: str):\n    sfile.write(fname, data.copy()%s)\n    sf = SFile(fname, 'r+')\n    sf.write(data)\n    sf.close()\n" % kw,
+        {"data": "rec"}, nd=(1,), dt=REC, func="SFile.write", valuation=val + ", mode r+ on an existing file")
     drv("Recfile_write_" + tag, "recfile",
         "def f(data, fname: str):\n    with Recfile(fname, 'w'%s) as r:\n        r.write(data)\n" % kw,
         {"data": "rec"}, nd=(1,), dt=REC, func="Recfile.write", valuation=val)
@@ -76,8 +84,12 @@ drv("Recfile_write_bracket", "recfile",
     "def f(data, fname: str):\n    r = Recfile(fname, 'w', delim=' ', bracket_arrays=True)\n    r.write(data)\n    r.close()\n",
     {"data": "rec"}, nd=(1,), dt=REC, func="Recfile.write", valuation="text, bracket_arrays=True")
 drv("Recfile_write_rplus", "recfile",
-    "def f(data, fname: str):\n    recfile.write(fname, data, delim=',')\n    recfile.write(fname, data, mode='r+', delim=',')\n",
-    {"data": "rec"}, nd=(1,), dt=REC, func="recfile.write", valuation="text, mode='r+'")
+    "def f(data, fname: str):\n    recfile.write(fname, data.copy(), delim=',')\n"
+    "    r = Recfile(fname, 'r+', delim=',', dtype=data.dtype, nrows=data.size)\n    r.write(data)\n    r.close()\n",
+    {"data": "rec"}, nd=(1,), dt=REC, func="Recfile.write", valuation="text, mode='r+' on an existing file")
+drv("Recfile_write_twice_txt", "recfile",
+    "def f(data, fname: str):\n    with Recfile(fname, 'w', delim=',') as r:\n        r.write(data)\n        r.write(data)\n",
+    {"data": "rec"}, nd=(1,), dt=REC, func="Recfile.write", valuation="text, the same table written twice")
 
 # ------------------------------------------------------------------ field operations
 drv("extract_fields", "fields", "def f(arr):\n    return numpy_util.extract_fields(arr, ['x', 'id'])\n", {"arr": "rec"}, dt=REC, valuation="strict=True")
@@ -276,10 +288,6 @@ drv("cosmo_V", "cosmo", "def f(z1, z2):\n    c = cosmology.Cosmo()\n    return c
 
 # ------------------------------------------------------------------ HTM
 drv("htm_lookup_id", "htm", "def f(ra, dec):\n    h = htm.HTM(8)\n    return h.lookup_id(ra, dec)\n", {"ra": "ra", "dec": "dec"}, nd=(1, 0), func="HTM.lookup_id")
-drv("htm_intersect", "htm", "def f(ra, dec, radius):\n    h = htm.HTM(6)\n    return h.intersect(ra, dec, radius)\n",
-    {"ra": "ra", "dec": "dec", "radius": "small"}, nd=(0,), func="HTM.intersect", valuation="inclusive=True")
-drv("htm_intersect_excl", "htm", "def f(ra, dec, radius):\n    h = htm.HTM(6)\n    return h.intersect(ra, dec, radius, inclusive=False)\n",
-    {"ra": "ra", "dec": "dec", "radius": "small"}, nd=(0,), func="HTM.intersect", valuation="inclusive=False")
 drv("htm_match", "htm", "def f(ra1, dec1, ra2, dec2):\n    h = htm.HTM(7)\n    return h.match(ra1, dec1, ra2, dec2, 2.0, maxmatch=0)\n",
     {"ra1": "cra", "dec1": "cdec", "ra2": "cra", "dec2": "cdec"}, nd=(1, 0), func="HTM.match", valuation="scalar radius, maxmatch=0")
 drv("htm_match_radius_array", "htm",
@@ -299,5 +307,55 @@ drv("htm_bincount_scale", "htm",
 drv("htm_bincount_htmid2", "htm",
     "def f(ra1, dec1, ra2, dec2):\n    h = htm.HTM(7)\n    ids = h.lookup_id(ra2, dec2)\n    return h.bincount(0.05, 3.0, 4, ra1, dec1, ra2, dec2, htmid2=ids)\n",
     {"ra1": "cra", "dec1": "cdec", "ra2": "cra", "dec2": "cdec"}, nd=(1,), func="HTM.bincount", valuation="htmid2= given")
+
+# ------------------------------------------------------------------ second round: remaining public array-taking functions of the
+# anchored modules (the inventory check in C15.py fails closed when a public function is neither driven nor listed as out of scope)
+drv("strmatch", "match", "def f(arr):\n    return numpy_util.strmatch(arr, '.*b1.*')\n", {"arr": "strs"}, dt=("U4",), nd=(1, 2))
+drv("recfile_split_fields", "fields", "def f(data):\n    return recfile.Util.split_fields(data, fields=['x', 'v'], getnames=True)\n", {"data": "rec"},
+    dt=REC, func="recfile.Util.split_fields", valuation="fields=[...], getnames=True")
+drv("sfile_reduce_array", "fields", "def f(data):\n    return sfile.reduce_array(data)\n", {"data": "rec"}, dt=REC, func="sfile.reduce_array")
+drv("recfile_to_native", "byteorder", "def f(array):\n    return recfile.Util.to_native(array)\n", {"array": "recnum"}, dt=REC,
+    func="recfile.Util.to_native", valuation="structured")
+drv("recfile_to_native_plain", "byteorder", "def f(array):\n    return recfile.Util.to_native(array)\n", {"array": "x"},
+    func="recfile.Util.to_native", valuation="plain")
+drv("recfile_to_native_inplace", "byteorder", "def f(array):\n    recfile.Util.to_native_inplace(array)\n", {"array": "x"},
+    func="recfile.Util.to_native_inplace", exempt={"array": "in-place by name and docstring ('Convert to native byte ordering in place')"})
+drv("descr_to_native", "byteorder", "def f(array):\n    return numpy_util.descr_to_native(array.dtype.descr)\n", {"array": "recnum"}, dt=REC)
+drv("atbound2", "coords", "def f(theta, phi):\n    coords.atbound2(theta, phi)\n", {"theta": "bigang", "phi": "bigang"}, nd=(1,), dt=FLT,
+    exempt={"theta": "in-place helper (wraps its arguments in place, returns None)", "phi": "in-place helper (wraps its arguments in place, returns None)"})
+drv("rect_area", "coords", "def f(lon_min, lon_max, lat_min, lat_max):\n    return coords.rect_area(lon_min, lon_max, lat_min, lat_max)\n",
+    {"lon_min": "ra", "lon_max": "ra", "lat_min": "dec", "lat_max": "dec"})
+drv("randcap_brute", "coords", "def f(ra, dec):\n    np.random.seed(5)\n    return coords.randcap_brute(4, ra, dec, 1.5, get_radius=True)\n",
+    {"ra": "ra", "dec": "dec"}, nd=(0,), valuation="centre given as 0-d arrays")
+for inv in (False, True):
+    drv("wcs_ApplyCDMatrix_inverse%d" % inv, "wcs",
+        "def f(x, y):\n    w = wcsutil.WCS(TAN_HDR)\n    return w.ApplyCDMatrix(x, y, inverse=%s)\n" % inv, {"x": "pix", "y": "pix"},
+        func="WCS.ApplyCDMatrix", valuation="inverse=%s" % inv, n=4)
+    drv("wcs_Distort_TPV_inverse%d" % inv, "wcs",
+        "def f(x, y):\n    w = wcsutil.WCS(TPV_HDR)\n    return w.Distort(x, y, inverse=%s)\n" % inv, {"x": "unit", "y": "unit"},
+        func="WCS.Distort", valuation="TPV, inverse=%s" % inv, n=4)
+    drv("wcs_Distort_SIP_inverse%d" % inv, "wcs",
+        "def f(x, y):\n    w = wcsutil.WCS(SIP_HDR)\n    return w.Distort(x, y, inverse=%s)\n" % inv, {"x": "pix", "y": "pix"},
+        func="WCS.Distort", valuation="SIP, inverse=%s" % inv, n=4)
+    drv("wcs_Rotate_reverse%d" % inv, "wcs",
+        "def f(lon, lat):\n    w = wcsutil.WCS(TAN_HDR)\n    return w.Rotate(lon, lat, reverse=%s)\n" % inv, {"lon": "unit", "lat": "unit"},
+        func="WCS.Rotate", valuation="reverse=%s (radians)" % inv, n=4)
+drv("wcs_image2sph", "wcs", "def f(x, y):\n    w = wcsutil.WCS(TAN_HDR)\n    return w.image2sph(x, y)\n", {"x": "unit", "y": "unit"},
+    func="WCS.image2sph", n=4)
+drv("wcs_sph2image", "wcs", "def f(lon, lat):\n    w = wcsutil.WCS(TAN_HDR)\n    return w.sph2image(lon, lat)\n", {"lon": "wlon", "lat": "dec"},
+    func="WCS.sph2image", n=4)
+drv("wcs_arrscl", "wcs", "def f(arr):\n    return wcsutil.arrscl(arr, 0.0, 1.0)\n", {"arr": "x"}, func="wcsutil.arrscl")
+drv("wcs_make_amatrix", "wcs", "def f(u, v):\n    return wcsutil.make_amatrix(u, v, 2)\n", {"u": "unit", "v": "unit"}, nd=(1,), func="wcsutil.make_amatrix")
+drv("wcs_Invert2DPolynomial", "wcs", "def f(u, v, x, y):\n    return wcsutil.Invert2DPolynomial(u, v, x, y, 1)\n",
+    {"u": "unit", "v": "unit", "x": "unit", "y": "unit"}, nd=(1,), dt=FLT, func="wcsutil.Invert2DPolynomial", valuation="porder=1, pack=True")
+drv("wcs_invert_for_coeffs", "wcs",
+    "def f(u, v, x, y):\n    am = wcsutil.make_amatrix(u, v, 1)\n    return wcsutil.invert_for_coeffs(am, x, y, lsolve=False)\n",
+    {"u": "unit", "v": "unit", "x": "unit", "y": "unit"}, nd=(1,), dt=FLT, func="wcsutil.invert_for_coeffs", valuation="lsolve=False")
+drv("cosmo_Ezinv_integral", "cosmo", "def f(z1, z2):\n    c = cosmology.Cosmo()\n    return c.Ezinv_integral(z1, z2)\n", {"z1": "z", "z2": "zhi"},
+    nd=(0,), func="Cosmo.Ezinv_integral", valuation="0-d array arguments")
+drv("htm_cylmatch", "htm",
+    "def f(ra1, dec1, z1, ra2, dec2, z2):\n    h = htm.HTM(7)\n    return h.cylmatch(ra1, dec1, z1, ra2, dec2, z2, 2.0, 0.5)\n",
+    {"ra1": "cra", "dec1": "cdec", "z1": "z", "ra2": "cra", "dec2": "cdec", "z2": "z"}, nd=(1,), func="HTM.cylmatch")
+drv("htm_gmean", "htm", "def f(r1, r2):\n    return htm.htm.gmean(r1, r2, 2)\n", {"r1": "small", "r2": "w"}, func="htm.gmean")
 
 DRIVERS = D
